@@ -140,7 +140,7 @@ def run(ctx):
         iso_and_ctors(ctx, prog)
     ctx.floor("TAB-STEP", 16)
     ctx.floor("ISO", 16)
-    ctx.floor("CTOR", 8)
+    ctx.floor("CTOR", 18)
 
 
 def state_fields(exp):
@@ -439,7 +439,28 @@ def iso_and_ctors(ctx, prog):
         if v is None or v[2:] != (("field", c, 0), ("field", c, 1)):
             ctx.violation("CTOR", prog.config + "|array_chunks", "array_chunks builds %s, expected the two parts of as_chunks(slice)" % (show(v) if v else "?"), b.file())
         ctx.instance("CTOR", prog.config + "|array_chunks")
+    # const_into_iter of slice / array references (what the iterator macros call on `&[..]` sources): Iter over the wrapped value
+    for b in prog.bodies:
+        if b.promoted is not None or not b.key.endswith("::const_into_iter") or "slice_into_iter" not in b.key:
+            continue
+        st = b.rec.get("impl_self") or ""
+        ps = [p for p in sym.paths_of(b, prog) if p.kind != "unreachable"]
+        v = table.strip_gargs(ps[0].value) if len(ps) == 1 and ps[0].kind == "return" and not ps[0].conds else None
+        ok = v is not None and v[0] == "agg" and v[1].startswith("adt:" + KI + "Iter::Iter#") and len(v) == 3
+        if ok:
+            t = v[2]
+            while t[0] == "deref" or (t[0] == "cast" and t[1] == "coerce:Unsize"):
+                t = t[1] if t[0] == "deref" else t[3]
+            ok = t == ("call", "core::mem::ManuallyDrop::into_inner", None, ("field", P1, 0))
+        if not ok:
+            ctx.violation("CTOR", "%s|const_into_iter|%s" % (prog.config, st), "const_into_iter for %s builds %s, expected Iter over the wrapped slice" % (st, show(v) if v else "?"), b.file())
+        ctx.instance("CTOR", "%s|const_into_iter|%s" % (prog.config, st))
+    from .. import accessors
+    accessors.ctor(ctx, "CTOR", prog, KI + "iter", "Iter", [P1])
+    accessors.ctor(ctx, "CTOR", prog, KI + "copied::iter_copied", "IterCopied", [P1])
     for mod, ty, fi, nm in ((SI, "ChunksExact", 1, "remainder"), (SI, "RChunksExact", 1, "remainder"), (SI, "ArrayChunks", 1, "remainder"),
+                            (SI, "ChunksExactRev", 1, "remainder"), (SI, "RChunksExactRev", 1, "remainder"),
+                            (KI, "IterRev", 0, "as_slice"), (KI + "copied::", "IterCopiedRev", 0, "as_slice"),
                             (KI, "Iter", 0, "as_slice"), (KI + "copied::", "IterCopied", 0, "as_slice")):
         b = prog.get(mod + ty + "::" + nm)
         if b is not None:
